@@ -109,11 +109,29 @@ CHECKS = {
         note="Exactness relies on injected integer arrays (the assembly code is data independent); a second family uses genuine regions for the "
              "uniform-grid equality at 2^-20. Instruction-level pre-emption is covered by the model only.",
         ref="5/C02"),
+    "C16": dict(
+        engine="MeshOps",
+        technique="TLA+ relational semantics of mesh generators/operations on integer lattice meshes (MeshOps.tla: exact signed volumes incl. "
+                  "Simpson-exact trilinear hexahedra, centroids, distance bags, face incidence); program space enumerated by the TLC model "
+                  "MeshOpsMC.tla (type-state machine) and every program step judged by TLC; fixed-point module MeshGen.tla for non-lattice generators",
+        text="TLC explores every sequence of operations applicable to the current cell type from five generator seeds up to the depth bound, "
+             "checks the cell-type/dimension typing invariants and exports the programs; each distinct program prefix is executed with the real "
+             "Mesh methods and TLC decides, in exact integer geometry, positive orientation (all 27 Simpson points of each hexahedron), covered "
+             "volume (generator box, preserved by rigid motions/mirror/triangulation/midpoint insertion/concatenate/stack/disconnect/merge, "
+             "z*area for expand, first moment of the section for revolve), preserved cell shapes, unmoved corners, inserted points = centroids "
+             "of edges/faces/cells, conforming faces, no unused/duplicate points, double flip = identity. Circle/Triangle/Lagrange generators "
+             "and generic angles/normals are judged in 2^-20 fixed point.",
+        note="Lattice meshes with <= 16 cells; quick: depth 2 (1451 programs, exhaustive), thorough: depth 3 (sampled 6000 of 23318). Clauses about "
+             "the child presuppose the same fact about the parent (e.g. after disconnect duplicates are intended). Revolution is claimed for "
+             "right-handed sweeps of sections on the positive side of the axis (the documented usage); mirror/flip for linear cell types.",
+        ref="5/C16"),
 }
 
 NOT_YET = {}
 
 ENGINES = [
+    {"name": "MeshOps", "path": "spec/MeshOps.tla", "serves_properties": ["C16"],
+     "kind_free_text": "TLA+ exact lattice geometry relations + MeshOpsMC.tla program-space model + MeshGen.tla fixed-point generators"},
     {"name": "Assembly", "path": "spec/Assembly.tla", "serves_properties": ["C02"],
      "kind_free_text": "TLA+ defining sums of integral forms (exact integers) + Threads.tla interleaving model + AssemblyMC.tla references"},
     {"name": "Surface", "path": "spec/Surface.tla", "serves_properties": ["C13"],
